@@ -289,6 +289,21 @@ def perm_arrays(arrays, perm, newshape):
     return out
 
 
+def relayout(a, how):
+    """the same cells (values, missing cells, element type, shape) held in memory in another order"""
+    def lay(x):
+        if how == "fortran":
+            return numpy.asfortranarray(x)
+        if how == "transposed-view":
+            return numpy.ascontiguousarray(x.T).T
+        if how == "reversed-strides":
+            return numpy.ascontiguousarray(x[::-1])[::-1]
+        big = numpy.zeros(x.shape[:-1] + (2 * x.shape[-1],), dtype=x.dtype)      # every other element of a wider buffer
+        big[..., ::2] = x
+        return big[..., ::2]
+    return numpy.ma.array(lay(numpy.ma.getdata(a)), mask=lay(numpy.ma.getmaskarray(a)))
+
+
 def main():
     out, prop, n = sys.argv[1], sys.argv[2], int(sys.argv[3])
     seed = int(os.environ.get("VERIF_SEED", "0"))
@@ -325,7 +340,13 @@ def main():
         g = gen_case(rnd, cname, prop)
         if g is None:
             continue
-        jobs.append((cname, g[0], g[1]))
+        arrs = g[0]
+        if rnd.random() < 0.12 and arrs and all(a.ndim >= 1 and a.size for a in arrs):
+            # inputs that are views / Fortran-ordered: the cells are the same, so model and reference do not see the difference
+            how = rnd.choice(["fortran", "transposed-view", "reversed-strides", "strided-view"])
+            arrs = [relayout(a, how) if rnd.random() < 0.7 else a for a in arrs]
+            dist["relaid_inputs"] = dist.get("relaid_inputs", 0) + 1
+        jobs.append((cname, arrs, g[1]))
     for cname, arrays, p in jobs:
         sigma = sigma_of(cname, arrays)
         o = run_impl(cname, arrays, p)
@@ -401,6 +422,15 @@ def main():
                 if c["shape"] != list(arrays[0].shape):
                     fails.append({"sig": "C05:shape:%s" % cname, "what": "%s returned shape %s for inputs of shape %s" % (cname, c["shape"], list(arrays[0].shape)), "replay": replay})
                 else:
+                    # a result is a function of the cells: how the input cells lie in memory (a transposed or strided view, Fortran order) is not an input
+                    how = rnd.choice(["fortran", "transposed-view"] if arrays[0].ndim >= 2 and rnd.random() < 0.7 else ["reversed-strides", "strided-view"])
+                    which = [rnd.random() < 0.7 for _ in arrays]
+                    o3 = run_impl(cname, [relayout(a, how) if w else a for a, w in zip(arrays, which)], p)
+                    evaluations += 1
+                    dist["memory_layouts"] = dist.get("memory_layouts", 0) + 1
+                    if o3[0] != "ok" or not same_obs(c, canon(o3[1]), Fr(1, 1 << 40)):
+                        fails.append({"sig": "C05:memory-layout:%s" % cname, "what": "%s gives %s when the same input cells are held as a %s array (inputs re-laid: %s); with ordinary arrays it gives %s" % (
+                            cname, summarize(o3), how, which, summarize(o)), "replay": dict(replay, memory_layout=how, relaid_inputs=which)})
                     L = arrays[0].size
                     perm = list(range(L))
                     rnd.shuffle(perm)
